@@ -15,6 +15,7 @@ import (
 	"path/filepath"
 	"sort"
 	"strings"
+	"sync"
 
 	"github.com/pdfcpu/pdfcpu/pkg/api"
 	"github.com/pdfcpu/pdfcpu/pkg/pdfcpu/model"
@@ -93,6 +94,9 @@ func init() {
 		c18Kinds[k] = true
 	}
 }
+
+// kindObjIDGen: pdfstrict's obj-id where only the generation number differs between entry and object header.
+const kindObjIDGen = "obj-id-gen"
 
 // kinds for which the encryption of the output is part of what fails
 var encKinds = map[string]bool{
@@ -190,6 +194,14 @@ func inspect(data, base []byte) fileReport {
 			rep.beyond["in-base/"+df.Kind]++
 			continue
 		}
+		if df.Kind == pdfstrict.KindObjID {
+			// the entry locates the right object number under another GENERATION: a defect of its own
+			// (generation bookkeeping), kept apart from entries that locate another object
+			var en, eg, hn, hg int
+			if n, _ := fmt.Sscanf(df.Msg, "entry %d %d points to \"%d %d obj\"", &en, &eg, &hn, &hg); n == 4 && en == hn && eg != hg {
+				df.Kind = kindObjIDGen
+			}
+		}
 		f := byKind[df.Kind]
 		if f == nil {
 			f = &finding{Kind: df.Kind, Msg: df.String(), Enc: rep.encrypted}
@@ -239,14 +251,18 @@ type caseOut struct {
 const maxOutputsPerCase = 16
 
 type runner struct {
-	t     *vk.T
-	pool  *opwl.Pool
-	plans []opwl.Plan
-	nOps  int
+	t      *vk.T
+	pool   *opwl.Pool
+	plans  []opwl.Plan
+	nOps   int
+	forced map[int]writerConf // cases whose writer configuration is enumerated instead of rotated (sparse inputs)
 }
 
 func (r *runner) confOf(i int) (writerConf, encAlg) {
 	pl := r.plans[i]
+	if w, ok := r.forced[i]; ok {
+		return w, encAlgs[(i+seedMod(r.t, 4))%4]
+	}
 	k := (pl.Round*5 + i%r.nOps + int(r.t.Seed)) % 12
 	if k < 0 {
 		k += 12
@@ -341,7 +357,9 @@ type rawKey struct {
 
 // configFree: defects of the free list, and of /Size in incremental updates, are keyed without the writer configuration.
 func configFree(k rawKey) bool {
-	return strings.HasPrefix(k.kind, "free-") || (k.incr && (k.kind == pdfstrict.KindTrailerSize || k.kind == pdfstrict.KindSectionSize))
+	// generation numbers are fixed in the cross-reference table in memory and in the references held by the
+	// objects before anything is serialised
+	return strings.HasPrefix(k.kind, "free-") || k.kind == kindObjIDGen || (k.incr && (k.kind == pdfstrict.KindTrailerSize || k.kind == pdfstrict.KindSectionSize))
 }
 
 func (k rawKey) String(writer, eol string) string {
@@ -438,6 +456,16 @@ type replayCase struct {
 	Defect  string `json:"defect"`
 }
 
+func seedMod(t *vk.T, m int) int { return int(((t.Seed % int64(m)) + int64(m)) % int64(m)) }
+
+// sparseInput returns the pool index of the (single) sparse input a SparsePlans case substitutes.
+func sparseInput(pl opwl.Plan) int {
+	for _, i := range pl.Subs {
+		return i
+	}
+	return 0
+}
+
 func main() {
 	vk.Run("C18", "exploration", func(t *vk.T) {
 		api.DisableConfigDir()
@@ -447,10 +475,34 @@ func main() {
 		t.Assume("incremental outputs (annotation operations with incr=true, in place): a base with structural defects is first rewritten by pdfcpu with the same writer configuration; defects that the base bytes already have are not charged to the increment")
 		t.Assume("byte-copy operations (PatchFile, pdfcpu.Write*, pdfcpu.CopyFile) and operations without PDF output (Extract* except ExtractPagesFile, Export*) are out of scope; at most 16 outputs per call are read (first 8 and last 8 by name)")
 
+		t.Rule("numbering extremes: pdfgen documents renumbered sparsely (strided numbers, objects >= 65536 and >= 2^24, generation numbers > 0, free entries at high numbers, /Size much larger than the object count; object and xref streams, classic tables with gaps or listed holes, incremental updates) replace the generic input of a whole-document rewrite, an incremental annotation update and seeded further operations; each such case runs under ALL four writers (xref table/stream × object streams) with the EOL rotating (thorough: × LF/CR/CRLF); documents >= 2^24: quick one document under two writers, thorough under all four")
 		ops := opwl.PDFOps()
-		pool := opwl.BuildPool(t, opwl.PoolOptions{Corpus: t.Pick(70, 1000), Gen: t.Pick(40, 300)})
+		pool := opwl.BuildPool(t, opwl.PoolOptions{Corpus: t.Pick(70, 1000), Gen: t.Pick(40, 300), Sparse: t.Pick(7, 49), SparseHuge: t.Pick(1, 4)})
 		n := t.Pick(3*len(ops)+len(ops)/2, 66*len(ops))
-		r := &runner{t: t, pool: pool, plans: pool.Plans(t, ops, n), nOps: len(ops)}
+		r := &runner{t: t, pool: pool, plans: pool.Plans(t, ops, n), nOps: len(ops), forced: map[int]writerConf{}}
+		for _, pl := range pool.SparsePlans(t, ops, t.Pick(3, 8), t.Pick(1, 2), n) {
+			huge := pool.Inputs[sparseInput(pl)].Tags["huge"]
+			base := pl.Index
+			for wi, w := range allWriters {
+				if huge && t.Quick() && (wi+base+seedMod(t, 2))%2 != 0 {
+					continue // quick: two of the four writers for a document >= 2^24
+				}
+				for e := 0; e < 3; e++ {
+					if (t.Quick() || huge) && e != (base+wi+seedMod(t, 3))%3 {
+						continue // one EOL per (case, writer) in rotation
+					}
+					w.Eol = e
+					pl.Index = len(r.plans)
+					r.forced[pl.Index] = w
+					r.plans = append(r.plans, pl)
+				}
+			}
+		}
+		nGeneral := n
+		n = len(r.plans)
+		t.Count("cases_general", int64(nGeneral))
+		t.Count("cases_numbering_extremes", int64(n-nGeneral))
+		t.Count("pool_sparse_rejected_by_validate", int64(pool.SparseRejected))
 		t.Extra("operations", len(ops))
 		t.Extra("pool", pool.TagCounts())
 		t.Count("pool_inputs", int64(len(pool.Inputs)))
@@ -465,14 +517,42 @@ func main() {
 			}
 		}
 		outs := make([]caseOut, n)
-		vk.Parallel(n, func(i int) {
+		// documents >= 2^24 cost pdfcpu 10-200 CPU seconds and up to 1 GB per write: their cases run on three
+		// goroutines of their own next to the others
+		var hugeCases, otherCases []int
+		for i := 0; i < n; i++ {
+			if _, f := r.forced[i]; f && pool.Inputs[sparseInput(r.plans[i])].Tags["huge"] {
+				hugeCases = append(hugeCases, i)
+			} else {
+				otherCases = append(otherCases, i)
+			}
+		}
+		run := func(i int) {
 			if only >= 0 && i != only {
 				outs[i].void = "not the replayed case"
 				return
 			}
 			w, a := r.confOf(i)
 			outs[i] = r.runCase(i, w, a, "")
-		})
+		}
+		var wg sync.WaitGroup
+		hugeNext := make(chan int, len(hugeCases))
+		for _, i := range hugeCases {
+			hugeNext <- i
+		}
+		close(hugeNext)
+		for g := 0; g < 3; g++ {
+			wg.Add(1)
+			go func() {
+				defer wg.Done()
+				for i := range hugeNext {
+					run(i)
+				}
+			}()
+		}
+		vk.Parallel(len(otherCases), func(oi int) { run(otherCases[oi]) })
+		wg.Wait()
+		t.Count("cases_numbering_extremes_2^24", int64(len(hugeCases)))
 
 		// ---- sequential accounting in case order (deterministic)
 		succeeded := map[string]int{}
@@ -497,6 +577,9 @@ func main() {
 			switch {
 			case o.void != "":
 				t.Count("cases_void_setup", 1)
+				if os.Getenv("C18_VERBOSE") != "" && only < 0 {
+					fmt.Fprintf(os.Stderr, "  case %d %s on %s: void: %s\n", i, pl.Op.Name, pl.InputName(pool), o.void)
+				}
 				continue
 			case o.panicked != "":
 				t.Count("pdfcpu_panics", 1)
@@ -504,6 +587,12 @@ func main() {
 				continue
 			case o.failed != "":
 				t.Count("op_returned_error", 1)
+				if _, f := r.forced[i]; f {
+					t.Count("op_returned_error/numbering="+pool.Inputs[sparseInput(pl)].Numbering, 1)
+				}
+				if os.Getenv("C18_VERBOSE") != "" {
+					fmt.Fprintf(os.Stderr, "  case %d %s on %s (in place=%v random=%v) writer=%s eol=%s: %s\n", i, pl.Op.Name, pl.InputName(pool), pl.InPlace, pl.Random, w.writer(), w.eol(), o.failed)
+				}
 				if firstErr[pl.Op.Name] == "" {
 					firstErr[pl.Op.Name] = o.failed
 				}
@@ -516,7 +605,13 @@ func main() {
 				t.Count("cases_without_pdf_output", 1)
 			}
 			for fi, rep := range o.reports {
-				t.Eval(pl.Op.Name + "|" + w.writer() + "|" + w.eol() + "|" + pl.InputKind(pool))
+				ik := pl.InputKind(pool)
+				if _, f := r.forced[i]; f {
+					num := pool.Inputs[sparseInput(pl)].Numbering
+					ik += ":" + num
+					t.Count("outputs/numbering="+num+"/writer="+w.writer(), 1)
+				}
+				t.Eval(pl.Op.Name + "|" + w.writer() + "|" + w.eol() + "|" + ik)
 				t.Count("outputs_checked", 1)
 				t.Count("outputs/writer="+w.writer()+"/eol="+w.eol(), 1)
 				t.Count("outputs/input="+pl.InputKind(pool), 1)
